@@ -300,3 +300,36 @@ func H_C05_date_datetime_one()      { vC05Date(9) }
 func H_C05_date_datetime_two()      { vC05Date(10) }
 func H_C05_date_datetime_three()    { vC05Date(11) }
 func H_C05_date_datetime_msg()      { vC05Date(12) }
+
+// in / unique on float32 values: compared by the canonical (32-bit) decimal rendering
+func H_C05_in_float32() {
+	x := []float32{0.1, 2.5, 0.3, 1e-7, 16777216}[vndChoice("x", 5)]
+	vAssert(vRuleViolated(In, "in=(0.1/2.5/16777216)", x) == !(x == 0.1 || x == 2.5 || x == 16777216), "C05 in/float32: compared by canonical decimal rendering")
+	vAssert(vRuleViolated(Unique, "unique", []float32{x, 0.1}) == (x == 0.1), "C05 unique/[]float32: compared by canonical decimal rendering")
+	vReach("end")
+}
+
+// several re rules in one process: each is judged by its own pattern (no state carried between rules)
+func H_C05_re_sequence() {
+	pats := []string{`^a+b`, `^a+c`, `[01]+`, `[01]$`, `(a|b)$`, `(a|b)+`, `^it\'s`, `^it\'t`, `a(b`, `a(b`}
+	i := vndChoice("first", len(pats))
+	j := vndChoice("second", len(pats))
+	v := vC05Text("v", 1+vndChoice("len", 3))
+	for _, p := range []string{pats[i], pats[j], pats[i]} {
+		m, err := regexp.MatchString(p, v)
+		vAssert(vRuleViolated(Re, "re='"+p+"'", v) == !(err == nil && m), "C05 re sequence: each rule judged by its own pattern")
+	}
+	vReach("end")
+}
+
+// the same for the other rules with arguments: a second rule with different arguments is judged on its own
+func H_C05_args_sequence() {
+	v := vC05Text("v", 1+vndChoice("len", 2))
+	a := vRuleViolated(In, "in=(a/b)", v)
+	b := vRuleViolated(In, "in=(a/c)", v)
+	vAssert(a == !(v == "a" || v == "b") && b == !(v == "a" || v == "c"), "C05 in sequence")
+	p := vRuleViolated(Prefix, "prefix=ab", v)
+	q := vRuleViolated(Prefix, "prefix=ac", v)
+	vAssert(p == !strings.HasPrefix(v, "ab") && q == !strings.HasPrefix(v, "ac"), "C05 prefix sequence")
+	vReach("end")
+}
